@@ -179,6 +179,9 @@ func cmdVerify(args []string) {
 				if o.Status != "unsat" {
 					status = o.Status
 					worst = o
+					if *verbose {
+						fmt.Printf("       failing instance [%s]: %s (path %s)\n", o.Status, o.Desc, o.Path)
+					}
 				}
 			}
 			if status == "unsat" {
